@@ -40,22 +40,29 @@ type profile struct {
 	ageChoices    bool
 	upstreamEnc   bool // upstream answers may carry Content-Encoding gzip (valid or broken streams)
 	reloadW       int  // weight of no-op configuration reloads
+	cancelW       int  // weight of "a waiting client goes away"
 	longKeys      bool // adversarial keys include URIs longer than 256 bytes differing only in the middle
 	shardKeys     bool // address keys by LRU shard (small caches: makes evictions replayable)
 	shards        int  // how many shards the keys are spread over (0 => 4)
 	varLen        bool // URIs of many lengths
 }
 
-var hostsPool = []string{"a.test", "b.test", "A.test", "a.test.", "ab.test"}
+// hosts that differ in case, a trailing dot, a port, or a trailing run of digits
+var hostsPool = []string{"a.test", "b.test", "A.test", "a.test.", "ab.test", "a.test:80", "a.test:8080", "a.test:8000", "a.test:8", "node1", "node10", "node100", "10.0.0.8", "10.0.0.80"}
 
 func genKeys(t *rapid.T, p *profile) []Key {
 	n := rapid.IntRange(p.minKeys, p.maxKeys).Draw(t, "nKeys")
 	keys := make([]Key, 0, n)
 	if p.adversarial {
 		keys = genAdversarialKeys(t, n)
-		for i := range keys {
-			sh := rapid.IntRange(0, 3).Draw(t, "shard")
-			keys[i].Shard = &sh
+		// forcing a key into a shard appends a parameter of its own to the URI; half of the
+		// cases keep the URIs as drawn, so that keys really differ in the host or the method
+		// only (which keys share a shard then depends on the process's hash seed)
+		if rapid.Bool().Draw(t, "forceShards") {
+			for i := range keys {
+				sh := rapid.IntRange(0, 3).Draw(t, "shard")
+				keys[i].Shard = &sh
+			}
 		}
 		return keys
 	}
@@ -373,6 +380,23 @@ func (g *genState) macro(name string) {
 		g.req(k, 0)
 		g.add(Op{K: "complete", Pick: -1, Out: g.outcome()})
 		g.req(k, 0)
+	case "hfpEvictReload": // a hit-for-pass marker leaves memory inside its period, then the key is asked again (twice at once)
+		D := g.sc.Cfg.HFP
+		if D <= 0 {
+			D = 300
+		}
+		g.req(k, 0)
+		g.add(Op{K: "complete", Pick: -1, Out: &Outcome{Kind: "uncacheable", Why: rapid.SampledFrom([]string{"no-store", "no-cache", "private", "none"}).Draw(t, "why")}})
+		n := rapid.IntRange(3, len(g.sc.Keys)).Draw(t, "others")
+		for i := 1; i <= n; i++ {
+			g.req((k+i)%len(g.sc.Keys), 0)
+			g.add(Op{K: "complete", Pick: -1, Out: g.outcome()})
+		}
+		g.add(Op{K: "advance", Ms: rapid.SampledFrom([]int{1, 500, 1500, D*1000 - 2500}).Draw(t, "into")})
+		g.req(k, 0)
+		g.req(k, 0)
+		g.add(Op{K: "complete", Pick: -1, Out: g.outcome()})
+		g.add(Op{K: "complete", Pick: -1, Out: g.outcome()})
 	case "evictReload": // touch many keys so that k is evicted, then come back
 		T := rapid.SampledFrom([]int{2, 5, 60}).Draw(t, "T")
 		g.req(k, 0)
@@ -393,7 +417,9 @@ func (g *genState) macro(name string) {
 }
 
 func (g *genState) getFault() string {
-	switch rapid.IntRange(0, 5).Draw(g.t, "faultKind") {
+	switch rapid.IntRange(0, 6).Draw(g.t, "faultKind") {
+	case 6:
+		return fmt.Sprintf("badfilter:%d", rapid.IntRange(0, 5).Draw(g.t, "dmg"))
 	case 0:
 		return "notfound"
 	case 1:
@@ -432,6 +458,10 @@ func genScenario(p *profile) func(t *rapid.T) Scenario {
 			}
 			if p.reloadW > 0 && rapid.IntRange(0, 99).Draw(t, "reloadP") < p.reloadW {
 				g.add(Op{K: "reload"})
+				continue
+			}
+			if p.cancelW > 0 && rapid.IntRange(0, 99).Draw(t, "cancelP") < p.cancelW {
+				g.add(Op{K: "cancel", Pick: rapid.IntRange(0, 7).Draw(t, "pick")})
 				continue
 			}
 			x := rapid.IntRange(0, total-1).Draw(t, "op")
@@ -526,6 +556,8 @@ func stdClasses(s *modelStats, tr *trace, out *vstat.Outcome) {
 	add("overlap>=3", btoi(s.MaxOverlap >= 3))
 	add("ambiguous_resolved", s.AmbiguousResolved)
 	add("wild", s.WildGens)
+	add("waiter_age_checked", s.WaiterAgeChecked)
+	add("hfp_marker_reloaded_from_store", s.MarkerReloads)
 }
 
 func btoi(b bool) int {
@@ -560,8 +592,8 @@ var allOutcomes = []string{"cacheable", "cacheable", "cacheable", "uncacheable",
 
 func TestC01(t *testing.T) {
 	installWedge(t, "C01")
-	p := &profile{prop: "C01", minKeys: 1, maxKeys: 3, methods: []string{"GET", "GET", "GET", "HEAD"}, upstreamEnc: true, reloadW: 3,
-		stores: []string{""}, cacheSizes: []int{1000}, hfps: []int{0, 2}, proxyTimeouts: []int{0},
+	p := &profile{prop: "C01", minKeys: 1, maxKeys: 3, methods: []string{"GET", "GET", "GET", "HEAD"}, upstreamEnc: true, reloadW: 3, cancelW: 3,
+		stores: []string{""}, cacheSizes: []int{1000, 1000, 100, 1001, 2000}, hfps: []int{0, 2}, proxyTimeouts: []int{0},
 		lifetimes: []int{1, 2, 3, 5}, outcomes: []string{"cacheable", "cacheable", "cacheable", "cacheable", "uncacheable", "transport_error"},
 		parkPct: 30, w: [6]int{40, 25, 15, 12, 2, 0}, minOps: 4, maxOps: 40,
 		macros: []string{"burst", "wokenExpiry", "registeredPark", "epochs"}, macroPct: 12,
@@ -573,8 +605,8 @@ func TestC01(t *testing.T) {
 
 func TestC02(t *testing.T) {
 	installWedge(t, "C02")
-	p := &profile{prop: "C02", minKeys: 1, maxKeys: 2, methods: []string{"GET", "GET", "HEAD"}, upstreamEnc: true, reloadW: 3,
-		stores: []string{"", "", "mem"}, cacheSizes: []int{1000}, hfps: []int{0, 1, 2}, proxyTimeouts: []int{0, 1000, 3000, 10000},
+	p := &profile{prop: "C02", minKeys: 1, maxKeys: 2, methods: []string{"GET", "GET", "HEAD"}, upstreamEnc: true, reloadW: 3, cancelW: 5,
+		stores: []string{"", "", "mem"}, cacheSizes: []int{1000, 1000, 100, 1001, 2000}, hfps: []int{0, 1, 2}, proxyTimeouts: []int{0, 1000, 3000, 10000},
 		lifetimes: []int{1, 2, 5}, outcomes: allOutcomes,
 		parkPct: 35, w: [6]int{40, 25, 12, 12, 5, 0}, minOps: 4, maxOps: 40,
 		macros: []string{"burst", "registeredPark", "timeout", "purgeRace", "wokenExpiry"}, macroPct: 12,
@@ -589,7 +621,7 @@ func TestC02(t *testing.T) {
 func TestC03Histories(t *testing.T) {
 	installWedge(t, "C03")
 	p := &profile{prop: "C03", minKeys: 1, maxKeys: 2, methods: []string{"GET", "GET", "HEAD", "POST", "DELETE"},
-		stores: []string{"", "", "mem"}, cacheSizes: []int{1000}, hfps: []int{0, 2}, proxyTimeouts: []int{0},
+		stores: []string{"", "", "mem"}, cacheSizes: []int{1000, 1000, 100, 1001, 2000}, hfps: []int{0, 2}, proxyTimeouts: []int{0},
 		lifetimes: []int{1, 2, 5}, outcomes: []string{"cacheable", "cacheable", "uncacheable", "uncacheable", "status5xx"},
 		parkPct: 15, w: [6]int{45, 28, 17, 8, 2, 0}, minOps: 6, maxOps: 40,
 		macros: []string{"burst", "epochs", "hfpBurst"}, macroPct: 15, reloadW: 2,
@@ -602,7 +634,7 @@ func TestC03Histories(t *testing.T) {
 func TestC04(t *testing.T) {
 	installWedge(t, "C04")
 	p := &profile{prop: "C04", minKeys: 1, maxKeys: 1, methods: []string{"GET", "GET", "GET", "HEAD"}, reloadW: 3,
-		stores: []string{"", "", "mem", "lazy"}, cacheSizes: []int{1000}, hfps: []int{0, 1}, proxyTimeouts: []int{0},
+		stores: []string{"", "", "mem", "lazy"}, cacheSizes: []int{1000, 1000, 100, 1001, 2000}, hfps: []int{0, 1}, proxyTimeouts: []int{0},
 		lifetimes: []int{1, 2, 3, 4, 5, 6, 7, 8, 9, 10, 60, 3600, 31536000}, outcomes: []string{"cacheable", "cacheable", "cacheable", "cacheable", "cacheable", "uncacheable"},
 		parkPct: 5, w: [6]int{40, 25, 30, 3, 0, 0}, minOps: 6, maxOps: 50,
 		macros: []string{"epochs"}, macroPct: 15, ageChoices: true,
@@ -615,7 +647,7 @@ func TestC04(t *testing.T) {
 func TestC07(t *testing.T) {
 	installWedge(t, "C07")
 	p := &profile{prop: "C07", minKeys: 1, maxKeys: 2, methods: []string{"GET", "GET", "GET", "HEAD"}, reloadW: 6,
-		stores: []string{"", "", "lazy"}, cacheSizes: []int{1000}, hfps: []int{0, -5, 1, 2, 5, 60, 300}, proxyTimeouts: []int{0},
+		stores: []string{"", "", "lazy"}, cacheSizes: []int{1000, 1000, 100, 1001, 2000}, hfps: []int{0, -5, 1, 2, 5, 60, 300}, proxyTimeouts: []int{0},
 		lifetimes: []int{1, 2, 5}, outcomes: []string{"cacheable", "uncacheable", "uncacheable", "transport_error", "status5xx"},
 		parkPct: 10, w: [6]int{45, 25, 22, 5, 0, 0}, minOps: 6, maxOps: 45,
 		macros: []string{"hfpBurst"}, macroPct: 15,
@@ -625,10 +657,26 @@ func TestC07(t *testing.T) {
 	}, stdClasses))
 }
 
+// TestC07Store: hit-for-pass markers that leave memory (LRU smaller than the working set)
+// inside their period while a reliable store holds them: the key must still be passed, not
+// probed, and concurrent requests must not queue
+func TestC07Store(t *testing.T) {
+	installWedge(t, "C07")
+	p := &profile{prop: "C07", minKeys: 10, maxKeys: 30, methods: []string{"GET", "GET", "GET", "HEAD"}, shardKeys: true,
+		stores: []string{"mem"}, cacheSizes: []int{8, 8, 16}, hfps: []int{5, 60, 300, 0}, proxyTimeouts: []int{0},
+		lifetimes: []int{2, 5, 60}, outcomes: []string{"cacheable", "uncacheable", "uncacheable", "uncacheable", "status5xx"},
+		parkPct: 5, w: [6]int{50, 32, 12, 3, 3, 0}, minOps: 12, maxOps: 100,
+		macros: []string{"hfpEvictReload", "hfpEvictReload", "hfpBurst"}, macroPct: 12,
+		bodyLens: []int{0, 40}, aes: []string{"", "gzip"}}
+	vstat.Run(t, "C07", "sim", genScenario(p), execSim(t, "C07", func(s *modelStats, tr *trace) bool {
+		return s.MarkerReloads >= 1
+	}, stdClasses))
+}
+
 func TestC18(t *testing.T) {
 	installWedge(t, "C18")
 	p := &profile{prop: "C18", minKeys: 2, maxKeys: 4, methods: []string{"GET", "GET", "GET", "HEAD"}, reloadW: 4,
-		twoServers: 70, stores: []string{"", "mem", "mem", "lazy"}, cacheSizes: []int{1000}, hfps: []int{0, 2}, proxyTimeouts: []int{0},
+		twoServers: 70, stores: []string{"", "mem", "mem", "lazy"}, cacheSizes: []int{1000, 1000, 100, 1001, 2000}, hfps: []int{0, 2}, proxyTimeouts: []int{0},
 		lifetimes: []int{2, 5, 60}, outcomes: []string{"cacheable", "cacheable", "cacheable", "uncacheable", "transport_error"},
 		parkPct: 20, w: [6]int{40, 25, 8, 10, 17, 0}, minOps: 6, maxOps: 45,
 		macros: []string{"purgeRace", "purgeFresh"}, macroPct: 15,
@@ -653,7 +701,7 @@ func TestC10(t *testing.T) {
 
 func TestC06(t *testing.T) {
 	installWedge(t, "C06")
-	p := &profile{prop: "C06", minKeys: 4, maxKeys: 40, adversarial: true, longKeys: true,
+	p := &profile{prop: "C06", minKeys: 4, maxKeys: 40, adversarial: true, longKeys: true, reloadW: 2,
 		twoServers: 20, stores: []string{"", "", "mem"}, cacheSizes: []int{8, 8, 16, 24}, hfps: []int{0, 2}, proxyTimeouts: []int{0},
 		lifetimes: []int{2, 60}, outcomes: []string{"cacheable", "cacheable", "cacheable", "uncacheable"},
 		parkPct: 5, w: [6]int{50, 35, 5, 3, 7, 0}, minOps: 10, maxOps: 120,
@@ -665,7 +713,7 @@ func TestC06(t *testing.T) {
 
 func TestC08Sim(t *testing.T) {
 	installWedge(t, "C08")
-	p := &profile{prop: "C08", minKeys: 10, maxKeys: 30, methods: []string{"GET", "GET", "GET", "HEAD"}, shardKeys: true,
+	p := &profile{prop: "C08", minKeys: 10, maxKeys: 30, methods: []string{"GET", "GET", "GET", "HEAD"}, shardKeys: true, reloadW: 2,
 		stores: []string{"mem", "mem", "lazy"}, cacheSizes: []int{8, 8, 16}, hfps: []int{0, 2, 5}, proxyTimeouts: []int{0},
 		lifetimes: []int{2, 5, 60}, outcomes: []string{"cacheable", "cacheable", "cacheable", "uncacheable"},
 		parkPct: 5, w: [6]int{50, 32, 12, 3, 3, 0}, minOps: 12, maxOps: 120,
@@ -681,7 +729,7 @@ func TestC08Sim(t *testing.T) {
 // longer than the size; the residency invariant is checked after every operation
 func TestC11Sim(t *testing.T) {
 	installWedge(t, "C11")
-	p := &profile{prop: "C11", minKeys: 6, maxKeys: 40, methods: []string{"GET", "GET", "GET", "HEAD"}, shardKeys: true, shards: 8, varLen: true,
+	p := &profile{prop: "C11", minKeys: 6, maxKeys: 40, methods: []string{"GET", "GET", "GET", "HEAD"}, shardKeys: true, shards: 8, varLen: true, reloadW: 2,
 		twoServers: 20, stores: []string{"", "mem", "mem", "lazy"}, cacheSizes: []int{1, 2, 3, 5, 7, 8, 9, 15, 16, 17, 24}, hfps: []int{0, 2}, proxyTimeouts: []int{0},
 		lifetimes: []int{2, 5, 60}, outcomes: []string{"cacheable", "cacheable", "cacheable", "uncacheable"},
 		parkPct: 5, w: [6]int{55, 33, 5, 3, 4, 0}, minOps: 20, maxOps: 160,
